@@ -159,7 +159,7 @@ func main() {
 		// moment node 0 is at its tip (node 0 then still holds ITS OWN commit certificate of that block, which the next block's
 		// header need not embed)
 		var follower *sim.CNode
-		if *prop != 3 {
+		{ // (for C03 as well: replaying a block in sync mode is one of the execution paths that must give the same header)
 			f, ferr := sim.NewCNode(g.State(), 2, nil)
 			if ferr != nil {
 				panic(ferr)
